@@ -1,5 +1,5 @@
 (** C14 obligation over the constants REGENERATED from /repo/ofxtools/Client.py on every run: the Content-Type is application/x-ofx, the
-    Accept header admits it, cookies persist by default, the default user id is the anonymous placeholder, and the cache file name is
+    Accept header admits it, cookies persist by default in a plain CookieJar with the stdlib's default policy (what the cookie probes of the correspondence run expect), the default user id is the anonymous placeholder, and the cache file name is
     built from ORG and FID only (what [key_of] models).  Breaks (fail closed) if the source changes any of these. *)
 From OfxV Require Import Base.Prelude Base.ClientBase Gen.ClientGen.
 Local Open Scope N_scope.
@@ -8,6 +8,7 @@ Theorem generated_constants_as_modelled :
   /\ accept_admits header_accept header_content_type = true
   /\ auth_placeholder = T "anonymous00000000000000000000000"
   /\ default_persist_cookies = true
+  /\ cookie_policy_is_default = true
   /\ default_userid_is_placeholder = true
   /\ cache_key_is_org_fid = true.
 Proof. vm_compute. repeat split; reflexivity. Qed.
